@@ -213,6 +213,8 @@ func defaultStreamMapFilter[T any](key string, isr streamReader) (streamReader, 
 		return nil, false
 	}
 
+	// a nil value below the key carries nothing (concatenation skips it), unless the stream holds nothing else
+	var onlyNil, found bool
 	convert := func(m map[string]any) (T, error) {
 		var t T
 		v, ok_ := m[key]
@@ -220,6 +222,11 @@ func defaultStreamMapFilter[T any](key string, isr streamReader) (streamReader, 
 			return t, schema.ErrNoValue
 		}
 		vv, ok_ := assertType[T](v)
+		if !ok_ && v == nil {
+			onlyNil = !found
+			return t, schema.ErrNoValue
+		}
+		found, onlyNil = true, false
 		if !ok_ {
 			return t, fmt.Errorf(
 				"[defaultStreamMapFilter]fail, key[%s]'s value type[%T] isn't expected type[%s]",
@@ -229,20 +236,41 @@ func defaultStreamMapFilter[T any](key string, isr streamReader) (streamReader, 
 		return vv, nil
 	}
 
-	ret := schema.StreamReaderWithConvert[map[string]any, T](sr, convert)
+	ret := schema.StreamReaderWithConvert[map[string]any, T](sr, convert, schema.WithOnEOF(func() error {
+		if onlyNil {
+			return fmt.Errorf(
+				"[defaultStreamMapFilter]fail, key[%s]'s value type[%T] isn't expected type[%s]",
+				key, nil,
+				generic.TypeOf[T]().String())
+		}
+		return nil
+	}))
 
 	return packStreamReader(ret), true
 }
 
 func defaultStreamConverter[T any](reader streamReader) streamReader {
+	// a nil chunk carries nothing (concatenation skips it), unless the stream holds nothing else
+	var onlyNil, found bool
 	return packStreamReader(schema.StreamReaderWithConvert(reader.toAnyStreamReader(), func(v any) (T, error) {
 		vv, ok := assertType[T](v)
+		if !ok && v == nil {
+			onlyNil = !found
+			return vv, schema.ErrNoValue
+		}
+		found, onlyNil = true, false
 		if !ok {
 			var t T
 			return t, fmt.Errorf("runtime type check fail, expected type: %T, actual type: %T", t, v)
 		}
 		return vv, nil
-	}))
+	}, schema.WithOnEOF(func() error {
+		if onlyNil {
+			var t T
+			return fmt.Errorf("runtime type check fail, expected type: %T, actual type: %T", t, nil)
+		}
+		return nil
+	})))
 }
 
 // assertType is v.(T), except that a nil interface value is accepted for an interface type T
